@@ -23,6 +23,7 @@ type splitter struct {
 	// chains would otherwise stop at the known finding c05:inherited-optional-dependency-becomes-required
 	carryRequired bool
 	ulimitPartial bool // refine one key of a soft/hard pair in a later part (see the known finding)
+	emptyLists    bool // parts may mention a sequence attribute with an empty list
 }
 
 func (s *splitter) coin(label string, num, den int) bool {
@@ -352,6 +353,10 @@ func (s *splitter) splitAppend(path string, l []any) []frag {
 	for i := 0; i < s.n; i++ {
 		if cuts[i+1] > cuts[i] {
 			out[i] = frag{true, cloneTree(l[cuts[i]:cuts[i+1]])}
+		} else if s.emptyLists && s.coin("emptylist", 1, 6) {
+			// a part may mention the attribute with nothing in it: an empty sequence appends nothing
+			out[i] = frag{true, []any{}}
+			s.used["empty-sequence-mentioned"]++
 		}
 	}
 	return out
